@@ -23,6 +23,16 @@ PROPS = {
         "level_note": "Resumed handshakes are covered under C06. Sub-protocol soundness (did a 'successful' method deserve to succeed) is C11/C18. Only CLAIMTOBE/PASSWORD/NONE/TOKEN(no token)/unknown names are exercised on the wire; the theorems cover all methods via the oracle abstraction.",
         "assumptions": ["an authentication sub-protocol reports success only if it completed (C11, C18)"],
     },
+    "C04": {
+        "lean": "CedarProps.C04",
+        "engines": ["relay"],
+        "oracle_engine": {"relay": "stream"},
+        "trusted": [SYMBOLIC_CRYPTO],
+        "technique": "Lean 4 theorems over the stream model's digest tracking and first-frame AAD (free hash constructor) + correspondence with in-transit edits of cleartext frames at the stream level and a byte-editing relay between two real handshaking endpoints",
+        "level_text": "sent_frames_are_fed / received_frames_are_fed (every cleartext frame before key installation, empty ones included, is hashed header+payload), transcript_binding (accepting a sender's first protected frame forces the receiver's (received, sent) digests to equal the sender's (sent, received)), same_digest_same_bytes, tamper_kills_first_frame: kernel-checked. Tied to the code by the relay engine: (1) stream level, model-compared: cleartext frames edited in transit (bit flips, flag flips, empty-frame insertion, removal, splitting, appended bytes) then keys installed and a protected message each way; (2) whole handshakes (no authentication, CLAIMTOBE, resumed) through a relay editing every frame of the transcript (byte offsets x substitutes, insertion, removal, splitting).",
+        "level_note": "Downgrade to a plaintext session is outside C04's hypothesis (C03/C10). Plain ReceiveFrame (GetSecret/GetFile) does not hash a zero-length frame: declared exception, fails closed. TOKEN-authenticated shapes are exercised by the C11 engine, not the relay.",
+        "assumptions": ["SHA-256 collision-free (free constructor)"],
+    },
     "C05": {
         "lean": "CedarProps.C05",
         "engines": ["dispatch"],
